@@ -3,7 +3,8 @@
 From Coq Require Import List Bool Arith String Lia.
 Import ListNotations.
 From Mv Require Import Model.Entry Model.Reconcile Model.Safety Model.Controller Model.ControllerCheck
-     Proof.ControllerBase Proof.ControllerPause Proof.ControllerTerminate Proof.ControllerHalt Proof.ControllerFlush Proof.ControllerReset Proof.ControllerSaved Proof.ControllerSound.
+     Proof.ControllerBase Proof.ControllerPause Proof.ControllerTerminate Proof.ControllerHalt Proof.ControllerFlush Proof.ControllerReset Proof.ControllerSaved Proof.ControllerSound
+     Proof.ControllerFlushTx Proof.ControllerFlushTxSound.
 Local Open Scope list_scope.
 
 Lemma run_pause : forall md manual sched st tr,
@@ -71,13 +72,17 @@ Lemma run_saved : forall md manual sched st tr,
   run (init_state md manual) sched = Some (st, tr) -> check_saved tr = true.
 Proof. intros. eapply saved_monitor_accepts. eapply run_reach. eassumption. Qed.
 
+Lemma run_flushtx : forall md manual sched st tr,
+  run (init_state md manual) sched = Some (st, tr) -> check_flushtx tr = true.
+Proof. intros. eapply flushtx_monitor_accepts. eapply run_reach. eassumption. Qed.
+
 (* the model's own traces pass the whole C29 checker *)
 Lemma run_check_c29_lenient : forall md manual sched st tr,
   run (init_state md manual) sched = Some (st, tr) -> check_c29_lenient md tr = true.
 Proof.
   intros md manual sched st tr H. unfold check_c29_lenient.
   rewrite (run_pause _ _ _ _ _ H), (run_terminate_lenient _ _ _ _ _ H), (run_flush _ _ _ _ _ H),
-          (run_saved _ _ _ _ _ H), (run_reset _ _ _ _ _ H). reflexivity.
+          (run_saved _ _ _ _ _ H), (run_reset _ _ _ _ _ H), (run_flushtx _ _ _ _ _ H). reflexivity.
 Qed.
 
 Lemma run_check_c29 : forall md manual sched st tr,
@@ -85,7 +90,7 @@ Lemma run_check_c29 : forall md manual sched st tr,
 Proof.
   intros md manual sched st tr H. unfold check_c29_events.
   rewrite (run_pause _ _ _ _ _ H), (run_terminate_strict _ _ _ _ _ H), (run_flush _ _ _ _ _ H),
-          (run_saved _ _ _ _ _ H), (run_reset _ _ _ _ _ H). reflexivity.
+          (run_saved _ _ _ _ _ H), (run_reset _ _ _ _ _ H), (run_flushtx _ _ _ _ _ H). reflexivity.
 Qed.
 
 (* the class predicate of the harness (only the strict terminate monitor
